@@ -295,15 +295,33 @@ theorem redirect_port_deterministic (c : Config) (P : Params) (π : Orders) (d :
     ∀ c P π π', SameResult (phase1Result c P π) (phase1Result c P π')
 -/
 
+/-- **DESIGN F16, the positive side.** For a key `d` that is not `ambName` (it is NOT the case
+    that two redirect-enabled servers contribute `d` and one with names of its own listens off
+    the HTTPS port) the set of listener addresses kept in `redirDomains[d]` — the addresses the
+    redirect routes for `d` are built from, one route per address (`mem_domainsByAddr`,
+    `mem_redirServers`) — is the same for every iteration order of the servers map: it is what
+    each contributing server keeps on its own (`keep`). -/
+theorem redirect_sources_deterministic (c : Config) (P : Params) (π π' : Orders) (d : Name)
+    (h : ambName c d = false) (a : Addr) :
+    (assocMem (mainLoop c P π).2 d a ↔ assocMem (mainLoop c P π').2 d a) ∧
+    (assocMem (domainsByAddr π (mainLoop c P π).2) a d ↔ assocMem (domainsByAddr π' (mainLoop c P π').2) a d) := by
+  have h1 : assocMem (mainLoop c P π).2 d a ↔ assocMem (mainLoop c P π').2 d a := by
+    rw [redirDomains_col c P π d h a, redirDomains_col c P π' d h a]
+  exact ⟨h1, by rw [mem_domainsByAddr, mem_domainsByAddr]; exact h1⟩
+
+example : ambName exCfg 2 = false ∧ ambName cfgF16 1 = true := by decide
+
 /-- **determinism, the provable part**, for ALL configurations and ALL pairs of iteration
     orders: (1) `allCertDomains` is the same set; (2) the automation policies are the same list
     up to the order of the subjects inside the implicit internal / tailscale policies;
     (3) every configured server keeps its listeners and gets the same `Disabled` flag and the
     same TLS-connection-policy state; (4) every name that is served on one port only (the
-    decidable exclusion `singlePort`; DESIGN F16 needs a name on two ports) is redirected to
-    that port by every redirect route that lists it.  NOT covered by this theorem: that the
-    SET of redirect routes, their placement and their order coincide for configurations with
-    `ambiguous c = false` — that part is carried by the correspondence stream and the
+    decidable exclusion `singlePort`) is redirected to that port by every redirect route that
+    lists it; (5) for every key that is not `ambName` (the decidable exclusion that carves out
+    DESIGN F16) the redirect routes are built from the same set of listener addresses.
+    NOT covered by a theorem: that placement (which server receives a block, `ambRecv`), the
+    relative order of the redirect routes and hence `effective` coincide for configurations
+    with `ambiguous c = false` — that part is carried by the correspondence stream and the
     repeated-provision oracle only. -/
 theorem deterministic_partial (c : Config) (P : Params) (π π' : Orders) :
     (∀ d, d ∈ (phase1Result c P π).certs ↔ d ∈ (phase1Result c P π').certs) ∧
@@ -312,8 +330,10 @@ theorem deterministic_partial (c : Config) (P : Params) (π π' : Orders) :
       obsAt (phase1Result c P π) k flagsOf = obsAt (phase1Result c P π') k flagsOf) ∧
     (∀ d p₀, singlePort c d p₀ = true →
       ∀ r, (r = phase1Result c P π ∨ r = phase1Result c P π') →
-        ∀ kv ∈ r.servers, ∀ rt ∈ kv.2.routes, rt.lists d = true → rt.port = portRule c p₀) := by
-  refine ⟨?_, policies_same c P π π', ?_, ?_⟩
+        ∀ kv ∈ r.servers, ∀ rt ∈ kv.2.routes, rt.lists d = true → rt.port = portRule c p₀) ∧
+    (∀ d, ambName c d = false → ∀ a,
+      assocMem (domainsByAddr π (mainLoop c P π).2) a d ↔ assocMem (domainsByAddr π' (mainLoop c P π').2) a d) := by
+  refine ⟨?_, policies_same c P π π', ?_, ?_, ?_⟩
   · intro d
     change d ∈ certsOf c P π ↔ d ∈ certsOf c P π'
     rw [mem_certsOf, mem_certsOf]
@@ -325,6 +345,8 @@ theorem deterministic_partial (c : Config) (P : Params) (π π' : Orders) :
     rcases hr with rfl | rfl
     · exact redirect_port_deterministic c P π d p₀ h hkv hrt hl
     · exact redirect_port_deterministic c P π' d p₀ h hkv hrt hl
+  · intro d h a
+    exact (redirect_sources_deterministic c P π π' d h a).2
 
 example : singlePort exCfg 2 8443 = true ∧ ambiguous exCfg = false := by decide
 
